@@ -108,7 +108,7 @@ def run(ctx):
                     before = full_snapshot(u)
                     nb = len(u.nodes)
                     if model is not None:
-                        d.call('dom_init', vlib.sx_show(u.snapshot()))
+                        DC.init_checked(ctx, d, u, attached, 'C07 (after a history on the real nodes)')
                     try:
                         r = thunk(); raised = None
                     except (IllegalChild, IllegalText, AttributeError, ValueError, xml.dom.NotFoundErr, xml.dom.HierarchyRequestErr) as e:
